@@ -394,8 +394,8 @@ impl<'a, F: Family> Cx<'a, F> {
                             _ => Class::Sl,
                         };
                         // A constructor is allowed to cope with a misreporting iterator instead of
-                        // refusing it ("at worst a propagated panic"): then the handle must hold a
-                        // prefix of what the iterator really yielded, and nothing uninitialised.
+                        // refusing it ("at worst a propagated panic"): then the handle must hold
+                        // exactly what the iterator really yields, and nothing uninitialised.
                         let mut n_eff = n;
                         let mut exp = Exp { new_live: 1, ..Exp::default() };
                         let mut ids = ids;
@@ -408,6 +408,14 @@ impl<'a, F: Family> Cx<'a, F> {
                                 violation(
                                     "uninit-exposed",
                                     format!("`{}`: the iterator yielded {} element(s) but the handle exposes {} slot(s): the extra ones were never written", what, n, n_eff),
+                                );
+                            }
+                            if n_eff < n {
+                                // coping is allowed, returning something else than the input is not
+                                // (C06: "elements equal the input, in the same order and number")
+                                violation(
+                                    "length-mismatch",
+                                    format!("`{}`: the iterator yields {} element(s) but the handle that came back holds only {}: contents silently truncated", what, n, n_eff),
                                 );
                             }
                             if F::E::TRACKED {
